@@ -75,6 +75,8 @@ def cases(draw):
     use_default_image = draw(st.booleans())
     md = draw(st.lists(st.sampled_from(["md/override:1", "other/img:2"]), min_size=0, max_size=2))
     outdir = draw(st.booleans())
+    # the requested output directory may not exist yet (its parent does)
+    outdir_missing = outdir and draw(st.integers(0, 4)) == 0
     outcome = draw(st.sampled_from(["success", "success", "fail-before", "fail-during", "no-result"]))
     chunks = draw(st.lists(st.tuples(st.sampled_from(["stdout", "stderr"]), st.sampled_from([b"line\n", b"", b"warn \xc3\xa9\n", b"x" * 50, b"Opening /data/caf\xe9.root 12 \xb5m\n", b"\xff\xfe"])), min_size=0, max_size=4))
     fail_after = draw(st.integers(0, 4))
@@ -84,7 +86,7 @@ def cases(draw):
     if draw(st.integers(0, 2)) == 0:
         second = {"md": draw(st.lists(st.sampled_from(["md/second:9", "other/img:2"]), min_size=0, max_size=1)),
                   "outcome": draw(st.sampled_from(["success", "success", "fail-before"])), "payload": draw(st.binary(min_size=1, max_size=12)).decode("latin-1")}
-    return {"rel_prefix": rel_prefix, "second": second, "backend": backend, "names": names, "dirs": dirs, "missing": missing, "link_targets": link_targets, "form": form, "image": image, "tag": tag, "default_image": use_default_image, "md": md,
+    return {"outdir_missing": outdir_missing, "rel_prefix": rel_prefix, "second": second, "backend": backend, "names": names, "dirs": dirs, "missing": missing, "link_targets": link_targets, "form": form, "image": image, "tag": tag, "default_image": use_default_image, "md": md,
             "outdir": outdir, "outcome": outcome, "chunks": [(k, d.decode("latin-1")) for k, d in chunks], "fail_after": fail_after, "payload": payload.decode("latin-1")}
 
 
@@ -133,7 +135,8 @@ def run_case(c: dict) -> dict:
         else:
             files = list(paths)
         outd = os.path.join(scratch, "out")
-        os.makedirs(outd)
+        if not c.get("outdir_missing"):
+            os.makedirs(outd)
         pow_.vf_calls.clear()
         pow_.vf_plan.update({"outcome": {"no-result": "no-result"}.get(c["outcome"], c["outcome"]), "chunks": [(k, d.encode("latin-1")) for k, d in c["chunks"]],
                              "fail_after": c["fail_after"], "payload": c["payload"].encode("latin-1")})
@@ -172,6 +175,7 @@ def run_case(c: dict) -> dict:
             obs["exception"] = type(e).__name__
             obs["exception_msg"] = str(e)[:200]
             obs["is_docker_exception"] = isinstance(e, pow_.DockerException)
+        obs["outdir_kind"] = "dir" if os.path.isdir(outd) else ("file" if os.path.exists(outd) else "absent")
         obs["calls"] = json.loads(json.dumps(pow_.vf_calls, default=str))
         obs["ddirs"] = ddirs
         return obs
@@ -215,7 +219,7 @@ def judge(c: dict, obs: dict):
             raise Violation("second-query-image", f"a second query on the same dataset ran image {second_calls[0]['image']!r}; expected {want2!r} (first query's metadata: {c['md']})", rep)
         if second_calls[0].get("filelist") != "".join(f"/data/{n}\n" for n in c["names"]):
             raise Violation("second-query-filelist", f"second query's filelist {second_calls[0].get('filelist')!r}", rep)
-        if s2["outcome"] == "success" and obs.get("second_result_bytes") != [s2["payload"]]:
+        if s2["outcome"] == "success" and obs.get("second_result_bytes") != [s2["payload"]] and not (c.get("outdir_missing") and "second_exception" in obs):
             raise Violation("second-query-result", f"second query returned {obs.get('second_result_bytes')!r} / {obs.get('second_exception')}; the container wrote {s2['payload']!r}", rep)
         if s2["outcome"] != "success" and "second_exception" not in obs:
             raise Violation("second-query-failure-swallowed", "the second query's container failed but a result was returned", rep)
@@ -259,6 +263,12 @@ def judge(c: dict, obs: dict):
     if os.path.isdir(scripts[0]):
         raise Violation("temp-dir-left", f"the package directory {scripts[0]} still exists after the call", rep)
     oc = c["outcome"]
+    if c.get("outdir_missing"):
+        # a directory that does not exist: raise, or make it - the result is never a FILE of the directory's name
+        if obs.get("outdir_kind") == "file":
+            raise Violation("result-location", f"the requested output directory did not exist: the result was written as a plain file at the directory's own path ({obs.get('result')})", rep)
+        if oc == "success" and "exception" in obs and not obs.get("is_docker_exception"):
+            return "missing-outdir-refused"
     if oc == "success":
         if "exception" in obs:
             raise Violation("success-raised", f"container succeeded but {obs['exception']}: {obs['exception_msg']}", rep)
@@ -290,7 +300,7 @@ def worker(payload):
         res = judge(c, obs)
         nt = len(c["names"]) >= 2 or bool(c["md"]) or c["outcome"] != "success" or res == "input-error"
         labels = (["second-query-on-same-dataset"] if c.get("second") else []) + [f"backend={c['backend']}", "outcome=" + c["outcome"], "result=" + res, f"files={len(c['names'])}", f"metadata={len(c['md'])}", "form=" + c["form"], "inputs=" + ("symlinks" if c.get("link_targets") else ("relative-paths" if c.get("rel_prefix") is not None else "files")),
-                  "outdir=" + ("given" if c["outdir"] else "default")]
+                  "outdir=" + (("missing" if c.get("outdir_missing") else "given") if c["outdir"] else "default")]
         stats.case(jdump(c), nt or bool(c.get("second")), labels, {k: c[k] for k in ("backend", "names", "dirs", "missing", "form", "md", "outcome", "fail_after", "second")})
 
     hyp_search(body, cases(), max_examples=n, seed=seed, stats=stats, deadline=deadline, key_fn=jdump, shrink_budget=200)
